@@ -187,6 +187,7 @@ type c05Rec struct {
 	idx    string
 	ptr    string
 	hasPtr bool
+	wild   bool // placeholder for a call whose result was lost to a fault (compared with nothing)
 }
 
 func c05OpName(op byte) string {
@@ -474,7 +475,24 @@ func c05RunStream(c *Ctx, in []byte, plan c05Plan, optSel int, script []byte, pt
 		if rc.state() != before.state() {
 			fi.stateDiff = fmt.Sprintf("before %s ; after faulted %s: %s", before.state(), c05OpName(op), rc.state())
 		}
-		if op == 'P' && probe != 0 {
+		if op == 'P' && probe == 3 && i+1 < len(script) && (script[i+1] == 'T' || script[i+1] == 'V') {
+			// do not retry PeekKind: the next read call of the script must deliver the cached fault without changing
+			// the state, and that same call, retried, must then behave as if nothing had happened
+			pop := script[i+1]
+			prc := r.call(pop, true)
+			r.recs = r.recs[:len(r.recs)-1]
+			if prc.ecl != "IO" {
+				fi.excluded = true
+				fi.note = "probe-not-io:" + prc.ecl
+				return r, fi
+			}
+			if prc.state() != before.state() && fi.stateDiff == "" {
+				fi.stateDiff = fmt.Sprintf("before %s ; after %s delivering the cached fault: %s", before.state(), c05OpName(pop), prc.state())
+			}
+			r.recs = append(r.recs, c05Rec{op: 'P', wild: true})
+			continue
+		}
+		if op == 'P' && probe != 0 && probe != 3 {
 			// the cached error is delivered by the next read call, which must not change the state either
 			pop := byte('T')
 			if probe == 2 {
@@ -505,6 +523,8 @@ func c05Diff(ref, got []c05Rec) (int, string) {
 	for i := 0; i < n; i++ {
 		a, b := ref[i], got[i]
 		switch {
+		case b.wild && a.op == b.op:
+			continue
 		case a.op != b.op:
 			return i, "op"
 		case a.res != b.res:
@@ -1161,13 +1181,10 @@ func (e *c05Env) phaseExhaustive() {
 	c := e.c
 	l := c.N(5, 7)
 	scripts := c05AllScripts(l)
-	docs := c05SmallInputs(c.Thorough())
-	if !c.Thorough() {
-		// quick: all scripts of length 5 on the hand-written documents, length 3 on their prefixes
-		docs = docs[:0]
-		for _, d := range c05SmallDocs {
-			docs = append(docs, []byte(d))
-		}
+	// all scripts of length 5 (quick) / 7 (thorough) on the hand-written documents, length 3 / 4 on all their prefixes
+	var docs [][]byte
+	for _, d := range c05SmallDocs {
+		docs = append(docs, []byte(d))
 	}
 	short := c05AllScripts(c.N(3, 4))
 	all := c05SmallInputs(true)
@@ -1263,7 +1280,7 @@ func (e *c05Env) phaseFaults() {
 					p := bp
 					p.faultAt = k
 					c.Case("B|"+string(in)+"|"+string(s)+"|"+p.String(), true)
-					e.check(in, p, 0, s, ref, true, (k+si)%3)
+					e.check(in, p, 0, s, ref, true, (k+si)%4)
 				}
 			}
 		}
@@ -1336,7 +1353,7 @@ func (e *c05Env) phaseRandom() {
 			g0, _ := c05RunStream(c, in, p, optSel, script, true, 0)
 			if nr := g0.fd.reads(); nr > 0 {
 				p.faultAt = r.IntN(nr)
-				e.check(in, p, optSel, script, ref, true, r.IntN(3))
+				e.check(in, p, optSel, script, ref, true, r.IntN(4))
 			}
 		}
 	})
@@ -1420,7 +1437,7 @@ func (e *c05Env) phaseSizes() {
 				if nr := g0.fd.reads(); nr > 0 {
 					for k := 0; k < 4; k++ {
 						p.faultAt = r.IntN(nr)
-						e.check(in, p, 0, script, ref, true, r.IntN(3))
+						e.check(in, p, 0, script, ref, true, r.IntN(4))
 					}
 				}
 			}
